@@ -1,0 +1,56 @@
+//go:build verif
+
+// Package verifhook provides yield points and counters for the external
+// verification harness. It is only active under the "verif" build tag; without
+// the tag every function is an empty, inlinable no-op.
+package verifhook
+
+import (
+	"sync"
+	"sync/atomic"
+)
+
+var yield atomic.Pointer[func(point string)]
+
+var (
+	mu       sync.Mutex
+	counters = map[string]int64{}
+)
+
+// SetYield installs (or, with nil, removes) the callback invoked at every
+// yield point.
+func SetYield(f func(point string)) {
+	if f == nil {
+		yield.Store(nil)
+		return
+	}
+	yield.Store(&f)
+}
+
+// At marks a yield point.
+func At(point string) {
+	if f := yield.Load(); f != nil {
+		(*f)(point)
+	}
+}
+
+// Count increments a named counter.
+func Count(name string) {
+	mu.Lock()
+	counters[name]++
+	mu.Unlock()
+}
+
+// Counter reads a named counter.
+func Counter(name string) int64 {
+	mu.Lock()
+	defer mu.Unlock()
+	return counters[name]
+}
+
+// ResetCounters clears all counters.
+func ResetCounters() {
+	mu.Lock()
+	counters = map[string]int64{}
+	mu.Unlock()
+}
